@@ -11,6 +11,10 @@
       live   also: `Z:<n>` — live zero-sized script constants, all versions together (printed when a
                version has any) —, `G<r>.<j>:<n>` for the further registered functions j = 0, 1 of runtime r
                and `GZ:<n>` for the zero-sized ones (member 2) of all runtimes together (printed when `rs` happened)
+   `c11 addr <n>`                   → for a script with n constants (each followed by its readers): per baked
+                                       constant address, oldest first, `1` = still valid when codegen is done
+                                       (by the generated `constStore`)
+   `c11 growth <n>`                 → the insertions (1-based, ≤ n) at which the model's constant table reallocates
    ops:  b:<r>  rc:<r>  rf:<r>  rs:<r>
          c:<r>:<k>:<nconst>:<nzst>:<useConst>:<useClos>:<useData>:<useSibs mask>:<value>
          (old form  c:<r>:<k>:<nconst>:<useConst>:<useClos>:<useData>:<value>  = nzst 0, mask 0)
@@ -19,6 +23,7 @@
 import Driver.Util
 import RotoV.Model.Lifetime
 import RotoV.Model.LifetimeKeep
+import RotoV.Model.LifetimeAddr
 import RotoV.Generated.Lifetime
 
 namespace Driver.C11
@@ -103,6 +108,14 @@ def runHist (F : Facts) : St × KeepSt → List KOp → List String → List Str
 def handle (args : List String) : String :=
   match args with
   | ["facts"] => toString (repr RotoV.Gen.Lifetime.facts) |>.replace "\n" " "
+  | ["growth", n] =>
+    match n.toNat? with
+    | some n => ",".intercalate ((growthPoints n).map toString)
+    | none => "bad-op"
+  | ["addr", n] =>
+    match n.toNat? with
+    | some n => ",".intercalate ((bakedValidity RotoV.Gen.Lifetime.constStore n).map fun b => if b then "1" else "0")
+    | none => "bad-op"
   | "run" :: toks =>
     match toks.mapM parseTok with
     | none => "bad-op"
